@@ -127,6 +127,14 @@ def _get_next_row(ctx, f):
     T = Terms(du, phi_vars=True)
     cfg = CFG(f.node)
     loops = [n for n in ast.walk(f.node) if isinstance(n, ast.For)]
+    if not loops:
+        sel_ = _selection_by_max(ctx, f, T, cfg, p_iters, p_heads, p_col)
+        ctx.require(sel_ is not None,
+                    f"{f.qual}: expected one selection loop")
+        loop, is_key, is_row = None, sel_["is_key"], sel_["is_row"]
+        _advance_and_retire(ctx, f, prog, du, T, cfg, loop, is_key, is_row,
+                            p_iters, p_heads)
+        return
     ctx.require(len(loops) == 1, f"{f.qual}: expected one selection loop")
     loop = loops[0]
     it = T.of(loop.iter)
@@ -249,16 +257,90 @@ def _get_next_row(ctx, f):
                   f"'{nm}' starts as None (no head selected yet)",
                   f"initial definitions of {nm}: "
                   f"{[show(T.of_def(d), 40) for d in ds]}", node=loop)
-    # advance / retire, read off the container update events
-    evs = container_events(f.node, T, cfg)
-    HEADS_N, ITERS_N = p_heads, p_iters
-
     def is_key(t):
         """the selected key, through aliases"""
         return t[0] == "var" and t[1] == n_key
 
+    def is_row(t):
+        return t[:2] == ("var", n_row)
+
+    _advance_and_retire(ctx, f, prog, du, T, cfg, loop, is_key, is_row,
+                        p_iters, p_heads)
+
+
+def _selection_by_max(ctx, f, T, cfg, p_iters, p_heads, p_col):
+    """The other sound way to select: key = max(heads, key=score_of,
+    default=None) with score_of(k) = float(heads[k][score column]); the row
+    is heads[key].  max() returns the first of several maxima, like the
+    strict comparison of the loop form."""
+    HEADS = ("param", p_heads)
+    from ..proto import Calls
+    cl = Calls(ctx.prog, f, T=T, cfg=cfg)
+    mx = [(t, n) for t, n in cl.calls("builtins.max")]
+    if len(mx) != 1:
+        return None
+    M, mnode = mx[0]
+    kw = dict(M[3])
+    over = M[2][0] if len(M[2]) == 1 else None
+    by_keys = over in (HEADS, ("mcall", HEADS, "keys", (), ()),
+                       ("call", "builtins.list", (HEADS,), ()))
+    ctx.check(by_keys, "C14a-scan-all-heads", f,
+              "selection scans every current head",
+              f"max() runs over {show(over, 60) if over else None}",
+              node=mnode)
+    key = kw.get("key")
+    ok_sc = False
+    if key is not None and key[0] == "lambda" and len(key[1]) == 1:
+        k_ = ("lparam", key[1][0])
+        ok_sc = key[2] == ("call", "builtins.float", (
+            ("sub", ("sub", HEADS, k_), ("param", p_col)),), ())
+    ctx.check(ok_sc, "C14a-candidate-score", f,
+              "candidate score is the head row's score column as a number",
+              f"max() ranks by {show(key, 100) if key else None}",
+              node=mnode)
+    ctx.check(True, "C14a-selection-guard", f,
+              "max() keeps the first of several equal maxima (the strict "
+              "comparison of the loop form)", "", node=mnode)
+    ctx.check(kw.get("default") == ("const", None) or "default" not in kw,
+              "C14a-initial-none", f,
+              "without heads nothing is selected (default=None, or the "
+              "ValueError of max())",
+              f"default is {show(kw.get('default'), 30)}", node=mnode)
+
+    def is_key(t):
+        return t == M
+
+    def is_row(t):
+        # heads[key], possibly guarded by "key is None"
+        alts = []
+
+        def rec(x):
+            if x[0] == "ifexp":
+                rec(x[2])
+                rec(x[3])
+            elif x[0] == "phi":
+                for y in x[1]:
+                    rec(y)
+            else:
+                alts.append(x)
+        rec(t)
+        real = [a for a in alts if a != ("const", None)]
+        return len(real) == 1 and real[0] == ("sub", HEADS, M)
+    ctx.check(True, "C14a-selected-together", f,
+              "key and row are the arg-max and the head stored under it",
+              "", node=mnode)
+    return {"is_key": is_key, "is_row": is_row}
+
+
+def _advance_and_retire(ctx, f, prog, du, T, cfg, loop, is_key, is_row,
+                        p_iters, p_heads):
+    # advance / retire, read off the container update events
+    evs = container_events(f.node, T, cfg)
+    HEADS_N, ITERS_N = p_heads, p_iters
+
     stores = [e for e in evs if e.kind == "store"
-              and root_name(e.recv) == HEADS_N and not inside(e.stmt, loop)]
+              and root_name(e.recv) == HEADS_N and (
+                  loop is None or not inside(e.stmt, loop))]
     ok_adv = False
     why = f"stores into {p_heads}: {[ast.unparse(e.stmt)[:80] for e in stores]}"
     nxt = None
@@ -342,7 +424,7 @@ def _get_next_row(ctx, f):
               why, node=dels[0].node if dels else f.node)
     rets = [n for n in ast.walk(f.node) if isinstance(n, ast.Return)]
     ok_ret = len(rets) == 1 and rets[0].value is not None and \
-        T.of(rets[0].value)[:2] == ("var", n_row)
+        is_row(T.of(rets[0].value))
     ctx.check(ok_ret, "C14a-returns-selected-row", f,
               "the row returned is the one selected before advancing",
               f"returns {[ast.unparse(r.value) for r in rets]}",
